@@ -13,6 +13,7 @@ let () =
     | "C07" -> C07.run_case
     | "C09" -> C13.run_c09
     | "C11" -> C13.run_c11
+    | "C10" -> C13.run_c10
     | _ -> prerr_endline ("unknown property " ^ prop); exit 2 in
   List.iter
     (fun l ->
